@@ -27,30 +27,30 @@ def _gen(pid):
 for _pid, _txt, _note in [
     ("C01", "Parse -> print -> parse on symbolic texts: fully symbolic short descriptor / mixture texts, distribution texts with numeral parameters, and templates of every skeleton / test string whose numbers are numeral atoms with symbolic values, with one whitespace or number-format variant at a time (integer literal, trailing dot, positional decimal, exponent notation); per path z3 proves acceptance of the print, fixed point, equal attribute trees, exact erasure of |...| segments, and that the parsed and the re-parsed object generate the same molecule from one scripted stream.",
      "Bounds: descriptor text <= 6 (8) symbolic characters, mixture body <= 4 (5), one variant at a time, token chemistry concrete. Trusted: CPython's number printing contract (float(repr(x)) == x; printed numbers contain no scanner characters), RDKit for atoms."),
-    ("C02", "SmilesToken on symbolic slot sequences (K <= 7 quick / 9 thorough; 1-3 descriptors at fixed positions, all other slots symbolic over 'C ( ) = #', SMILES validity assumed as a z3 precondition): per path z3 proves binding atom and bond order equal an independent OpenSMILES reference binder (cross-checked against RDKit with dummy atoms), plus descriptor-level (symbol, id digits, weights, list totals), structure-level templates (terminals, tokens, weights, family and parameter order) and the mixture specification (absolute mass / percentage in every spelling of the number, through Mixture, Molecule and System).",
+    ("C02", "SmilesToken on symbolic slot sequences (K <= 7 quick / 9 thorough; 1-3 descriptors at fixed positions, all other slots symbolic over 'C ( ) = #', SMILES validity assumed as a z3 precondition): per path z3 proves binding atom and bond order equal an independent OpenSMILES reference binder (cross-checked against RDKit with dummy atoms), plus descriptor-level (symbol, id digits, weights, list totals), structure-level templates (terminals, tokens, weights, family and parameter order) and the mixture specification (absolute mass / percentage in every spelling of the number, 0 % included, through Mixture, Molecule and System), the atom of the descriptor the parser adds to a prefix / suffix that ends in a closed branch, and history-free parsing (a list '|1 2|' and its scalar twin '|12|' parsed one after the other).",
      "Bounds: K, ring closures and bracket / two-letter atoms only through concrete templates. Trusted: RDKit as the meaning of SMILES, numeral-atom contract."),
-    ("C04", "Shared gen-driver: real Molecule.generate with symbolic weights, symbolic drawn targets and all rng.choice outcomes on the skeleton list of checks/gendrive.py (33 small molecules; N = 2 units per block quick, 3 thorough); every attach_other call is checked for range, openness, conjugation rule (harness formula), bonded atoms and bond order, list bookkeeping; final inter-residue bonds = recorded attachments. The reference reading of every token is its text as written (RDKit with dummy atoms), never the text the code prints back.",
+    ("C04", "Shared gen-driver: real Molecule.generate with symbolic weights, symbolic drawn targets and all rng.choice outcomes on the skeleton list of checks/gendrive.py (59 small molecules, some also generated after a near twin of them in the same process; N = 2 units per block quick, 3 thorough); every attach_other call is checked for range, openness, conjugation rule (harness formula), bonded atoms and bond order, list bookkeeping; final inter-residue bonds = recorded attachments. The reference reading of every token is its text as written (RDKit with dummy atoms), never the text the code prints back (explicit hydrogens folded as RDKit does at generation level). Plus MolGen.attach_other used directly: one fragment object attached to two cores.",
      "Bounds: skeleton list, N units per block, weights in {0} u [1e-6,1e6]. Stubs: draw_mw (nondeterministic real), embed/UFF (zero conformer), numpy shim, Generator.choice contract. Chemistry assertions are concrete per path; the solver decides which paths exist."),
-    ("C05", "Same runs as C04: per finished path residues partition the atoms, are atom-by-atom identical to the token text parsed independently (RDKit with dummy atoms), form a tree with residues-1 bonds, sanitise, carry the written hydrogen counts, and masses add up.", "As C04."),
+    ("C05", "Same runs as C04: per finished path residues partition the atoms, are atom-by-atom identical to the token text parsed independently (RDKit with dummy atoms), form a tree with residues-1 bonds, sanitise, carry the written hydrogen counts, masses add up, and the SMILES accessor denotes the molecule of the mol accessor.", "As C04."),
     ("C06", "Same runs as C04 on the closed skeletons: no path ends in an exception, unwinding bound holds, result fully generated, each descriptor bonded exactly once, element order, once-only tokens, >= 1 repeat unit per block, exactly one bond between consecutive elements, end groups are leaves; on every skeleton (also ill-posed ones) a molecule handed back without open descriptor contains every written element.", "As C04; well-posedness is by construction of the skeleton list."),
     ("C07", "Same runs as C04 with the drawn target a solver variable: z3 proves per block added_{n-1} <= t < added_n at the exact boundary (so > vs >= is decided), at least one unit, one draw per block, the compared mass is the mass this block added (token texts), growth ends without a comparison only when no open descriptor is left, unwinding assertion n <= N. If the code does not measure through HeavyAtomMolWt the stop rule is judged on the masses of the written tokens (1e-6 band).", "As C04."),
-    ("C08", "Same runs as C04: at every rng.choice call the candidate set equals the rule-admitted descriptors for that call site and the probability vector is proved equal to the reference law (w/sum w, uniform for equal weights incl. all zero, t_j/sum t for listed transitions over all descriptors) as polynomial identities; sums to 1; no NaN; left terminal's weight/list transferred to the prefix's descriptor; a descriptor with a list never gets its partner by weight. In isolation: choose_compatible_weight on k <= 3 (5) descriptors in ARBITRARY constructor-producible states and an arbitrary open descriptor: options = rule-admitted descriptors, p_i = w_i / sum w (uniform on ties, all zero included), returned index = the generator's pick, weights untouched; an implementation that samples from one uniform draw is judged by the measure of the draws per index (two-copy query).", "As C04; long-run frequencies are outside; k <= 3 (5) in isolation."),
-    ("C12", "Real Mixture constructor / setters / _estimate_system_molecular_weight on all kind assignments of k <= 4 (5) components with symbolic numbers parsed from symbolic text: soundness (relations exact, totals within 10x the code's tolerance, written values kept, unique solution of the linear specification), completeness for the documented determined forms, print/parse keeps masses.", "Bounds: k, value ranges, tolerance band excluded. Component objects are stand-ins for the estimate function; System text round trip on concrete chemistry."),
-    ("C13", "Real System.generator / System.generate with symbolic system mass, percentages, per-molecule masses and completeness flags (component generate stubbed), all picks: provenance, completeness, stop exactly at the system mass, refusal of non-generable systems, generability checked before generating; the same System object iterated again after a partial, a complete iteration or a single generation obeys the stop rule on its own molecules.", "Bounds: <= 3 (4) yields, <= 2 (3) components; Molecule.generate stubbed (covered by C04-C08)."),
+    ("C08", "Same runs as C04: at every rng.choice call the candidate set equals the rule-admitted descriptors for that call site and the probability vector is proved equal to the reference law (w/sum w, uniform for equal weights incl. all zero, t_j/sum t for listed transitions over all descriptors) as polynomial identities; sums to 1; no NaN; left terminal's weight/list transferred to the prefix's descriptor; a descriptor with a list never gets its partner by weight and the list followed is the one WRITTEN on it; the law is proved up to the replay tolerance (1e-9) where normal forms differ, 'an option of weight zero has probability exactly zero' exactly. In isolation: choose_compatible_weight on k <= 3 (5) descriptors in ARBITRARY constructor-producible states and an arbitrary open descriptor: options = rule-admitted descriptors, p_i = w_i / sum w (uniform on ties, all zero included), returned index = the generator's pick, weights untouched; an implementation that samples from one uniform draw is judged by the measure of the draws per index (two-copy query) and by 'an option of probability zero is never returned, whatever the draw' (boundary draws included).", "As C04; long-run frequencies are outside; k <= 3 (5) in isolation."),
+    ("C12", "Real Mixture constructor / setters / _estimate_system_molecular_weight on all kind assignments of k <= 4 (5) components with symbolic numbers parsed from symbolic text: soundness (relations exact, totals within 10x the code's tolerance, written values kept, unique solution of the linear specification), completeness for the documented determined forms, print/parse keeps masses; systems built in turn from one component text are each resolved from their own inputs.", "Bounds: k, value ranges, tolerance band excluded. Component objects are stand-ins for the estimate function; System text round trip on concrete chemistry."),
+    ("C13", "Real System.generator / System.generate with symbolic system mass, percentages, per-molecule masses and completeness flags (component generate stubbed), all picks: provenance, completeness, stop exactly at the system mass, refusal of non-generable systems, generability checked before generating; the same System object iterated again after a partial, a complete iteration or a single generation, or with a single generation interleaved, obeys the stop rule on its own molecules; with the components' real generate (methane / ethane, [H][H] / methane) the booked mass is the heavy-atom mass.", "Bounds: <= 3 (4) yields, <= 2 (3) components; Molecule.generate stubbed (covered by C04-C08)."),
     ("C14", "The pick vector handed to rng.choice is captured as terms in the declared fractions; with symbolic mean masses z3 decides the renewal-reward identity p_i m_i sum f = f_i sum p_j m_j per component. The pinned tree violates it (pick probability = mass fraction): listed as known finding, any other law is a VIOLATION. A pick computed from a uniform draw instead of rng.choice is judged by the measure of the draws per component (two-copy query over the path condition, 10-point margin).", "Assumes the renewal-reward limit theorem; finite-size effects and dependence between successive picks (needs ensembles larger than the bound) outside."),
-    ("C09", "Reduced claim (plumbing): distribution parameters as numeral atoms with symbolic values inside symbolic text run through the real get_distribution / constructors / draw_mw / prob_mw with scipy's objects replaced by recorders; z3 proves parameter order and meaning per family (gauss loc/scale, uniform loc/scale=high-low, poisson mu, flory_schulz a, schulz_zimm Mn and z(Mw-Mn)=Mn, log_normal M/D), the caller's generator reaches rvs, dispatch by name, one draw per block; telescoping of interval probabilities for an uninterpreted monotone CDF.",
+    ("C09", "Reduced claim (plumbing): distribution parameters as numeral atoms with symbolic values inside symbolic text run through the real get_distribution / constructors / draw_mw / prob_mw with scipy's objects replaced by recorders; z3 proves parameter order and meaning per family (gauss loc/scale, uniform loc/scale=high-low, poisson mu, flory_schulz a, schulz_zimm Mn and z(Mw-Mn)=Mn, log_normal M/D), the caller's generator reaches rvs, dispatch by name, one draw per block, every parameter in every spelling of the number, the object parsed from the canonical text samples with the same parameters; telescoping of interval probabilities for an uninterpreted monotone CDF.",
      "Outside (stated): that scipy samples the law it is parameterised with and that the hand-written pmf/pdf are the named laws (C11); ensemble frequencies are not claimed."),
-    ("C10", "Self-composition: run A (fresh instance, symbolic stream: all picks, symbolic targets, symbolic weights) vs run B (another instance after a history of operations on it or on a third instance: generate, prints, graphs, mirror, accessors, re-parse, global-generator draws, repeating run A's own stream on the instance, generating the mirror) with the same stream: same options and probability vectors at every decision, same SMILES and mass; structural digests, printed forms, generability, BigSMILESbase.bond_descriptors and the global generator's state unchanged after every operation.",
+    ("C10", "Self-composition: run A (fresh instance, symbolic stream: all picks, symbolic targets, symbolic weights) vs run B (another instance after a history of operations on it or on a third instance: generate, prints, graphs, mirror, accessors, re-parse, global-generator draws, repeating run A's own stream on the instance, generating the mirror) with the same stream: same options and probability vectors at every decision, same SMILES and mass; structural digests of every attribute the parsed objects had at parse time (aliasing included), printed forms, generability, BigSMILESbase.bond_descriptors and the global generator's state unchanged after every operation.",
      "Bounds: 5 (7) skeletons at N = 1 (2), history length 1 (2) between the generations; plus the case of a static initiator whose generated result is used as a prefix elsewhere. draw_mw / embed stubbed. Process-level effects and System.generator outside."),
-    ("C15", "One harness per rule of the statement; the breaking operator (position, offending characters, offending numbers) is symbolic and every path must end in an exception: unbalanced branches (validity precondition with balance negated), unclosed bracket, descriptor between two atoms, unknown descriptor symbol, distribution name with one character changed / dropped, transition list of wrong length, negative weight (not generable, generate refuses), text after a mixture specifier, percentage outside 0-100 (any real, every spelling of the number), generating the non-generable, missing / mismatching prefix; termination by an unwinding assertion on every while loop of the text layer for fully symbolic texts of length <= 4 (5).",
+    ("C15", "One harness per rule of the statement; the breaking operator (position, offending characters, offending numbers) is symbolic and every path must end in an exception: unbalanced branches (validity precondition with balance negated), unclosed bracket, descriptor between two atoms, unknown descriptor symbol, distribution name with one character changed / dropped, transition list of wrong length, negative weight (not generable, generate refuses), text after a mixture specifier, percentage outside 0-100 (any real, every spelling of the number), generating the non-generable, missing / mismatching prefix (also for an empty left terminal), one bracket or brace of a well-formed object missing; termination by an unwinding assertion on every while loop of the text layer for fully symbolic texts of length <= 4 (5).",
      "Any exception counts as rejection. One violated rule at a time. Termination texts over the structural alphabet 'C{}[]$.|;,5 '. Known finding: System.generate does not consult System.generable."),
-    ("C17", "Real StochasticAtomGraph.generate with symbolic weights compared with a graph built independently from the parsed structure and RDKit's reading of each token (descriptors as dummy atoms): nodes (element, charge, aromaticity), static edges, stochastic / termination / transition edge multisets, weight attributes as z3 terms; a second generate() on the same object gives the same graph.",
+    ("C17", "Real StochasticAtomGraph.generate with symbolic weights compared with a graph built independently from the parsed structure and RDKit's reading of each token (descriptors as dummy atoms): nodes (element, charge, aromaticity), static edges, stochastic / termination / transition edge multisets, weight attributes as z3 terms; a second generate() on the same object gives the same graph, the graph of the mirror taken afterwards is the mirror's; for descriptors with a transition list the recorded deviation (known finding) is a second reference, any other deviation is reported.",
      "Structure is concrete per molecule; only weights are quantified (weak use of the solver, kept because offsets / missing edge classes / wrong weight attributes are realistic changes). Known finding: edges of descriptors with a transition list."),
     ("C18", "Real AtomGraph.generate on Schulz-Zimm skeletons with every rng.choice outcome explored, the draw per (Mw, Mn) key a fresh real and weights symbolic: whole residues (contiguous id blocks mapping onto a token's atoms and internal bonds), inter-residue bonds follow non-static graph edges with their bond order, tree, sanitisation, bounded size, same stream => same molecule, a later generation in the same process consumes the generator like the first.",
-     "Bounds: 9 skeletons, 2-3 units per block (one more in the thorough tier). rng threshold 1e-200 for the code's EPSILON = 1e-300. Draw stubbed."),
-    ("C19", "Real get_ensemble_prob with each block's CDF an uninterpreted monotone function (fresh real per distinct argument) and symbolic start weights: the returned term is proved equal to prod_b (F_b(n m) - F_b((n-1) m)) for n = 1..2 (3) units per block on 10 skeletons (prefix / end-group start, one / two blocks, connector, adjacent blocks of the same unit with the law summed over the splits, a chlorinated unit under a discrete law, all six families' prob_mw plumbing); foreign molecule -> 0; renumbered SMILES -> same term.",
+     "Bounds: 12 skeletons, 2-3 units per block (one more in the thorough tier). rng threshold 1e-200 for the code's EPSILON = 1e-300. Draw stubbed."),
+    ("C19", "Real get_ensemble_prob with each block's CDF an uninterpreted monotone function (fresh real per distinct argument) and symbolic start weights: the returned term is proved equal to prod_b (F_b(n m) - F_b((n-1) m)) for n = 1..2 (3) units per block on 15 skeletons (prefix / end-group start, one / two blocks, connector, adjacent blocks of the same unit with the law summed over the splits, a chlorinated unit under a discrete law, a window narrower than a unit, a locally symmetric substituent, a heavy-isotope unit, all six families' prob_mw plumbing); foreign molecule -> 0; renumbered SMILES -> same term.",
      "Bounds: linear chains of one directed repeat unit, n <= 2 (3), 2-3 renumberings (samples). Known findings: symmetric tokens / symmetric molecules (embedding enumeration)."),
-    ("C20", "Decidable core: all histories of <= 2 (3) get_assignment_class calls over {None, A, B}^2 with the reader replaced by a recorder (object returned was built from exactly the requested files); get_type_assignments with a symbolic match relation (4 rules x 2 (3) atoms) and atom permutation (longest rule wins, first among equals, FfAssignmentError with the partial assignment, commutes with numbering); refusal of partially generated molecules; concrete side checks: type masses against the element of each rule; two spellings of one molecule typed on one assigner; typable / isotope-labelled / untypable molecules typed in sequence through MolGen.forcefield_types (total or dedicated error carrying partial assignment and molecule, element masses, second typing equals the first by value).",
+    ("C20", "Decidable core: all histories of <= 2 (3) get_assignment_class calls over {None, A, B}^2 with the reader replaced by a recorder (object returned was built from exactly the requested files); get_type_assignments with a symbolic match relation (4 rules x 2 (3) atoms) and atom permutation (longest rule wins, first among equals, FfAssignmentError with the partial assignment, commutes with numbering); refusal of partially generated molecules; concrete side checks: type masses against the element of each rule; two spellings of one molecule typed on one assigner; typable / isotope-labelled / untypable molecules typed in sequence through MolGen.forcefield_types (total or dedicated error carrying partial assignment and molecule, element masses, second typing equals the first by value, bond_type_id included); a reduced rule file, copies of the bundled files and the defaults used in turn (real files): copies give the defaults' result.",
      "Outside: RDKit's SMARTS semantics, completeness of the bundled rule set. Known finding: opls_420 (thiolate sulfur typed as oxygen) in the bundled data."),
     ("C16", "Real gen_reaction_graph with symbolic weights on the skeleton list plus test strings and mixed-bond-order molecules: node set, per-node sums = 1 or absent for prob / term_prob / trans_prob, every edge value equals the reference law of C08 as a polynomial identity, edge sets = admissible partners; the molecule is unchanged, a second graph and the graph of the mirror taken afterwards are those of their own objects.", "Bounds: molecule list; weights in {0} u [1e-6,1e6]. Known finding: hand-overs whose admissible partners all have weight zero."),
 ]:
